@@ -206,6 +206,11 @@ Proof.
 Qed.
 
 (* ------------------------------------------------------------ TakeWhile *)
+(* Remark.  The latch [seq.f = nil] is set when the predicate fails, but no lemma below ever steps an
+   [ITakeW s None]: on expression trees consumed by the documented loop no Next() is called again after
+   it answered false (plus swaps to rhs, join re-primes, the constructors return nil), so list semantics
+   does not depend on the latch.  The check therefore sees its removal only through the extra Next()
+   calls it makes after exhaustion (model comparison), never through the property oracle. *)
 Lemma pos_takew p : forall l s,
   Pos l s -> interp_p p (hd 0 l) = true -> Pos (takew (interp_p p) l) (ITakeW s (Some p)).
 Proof.
